@@ -889,7 +889,7 @@ def build(E):
 
     # pure, non-panicking callees whose result is simply unknown
     quiet = """
-<&T as std::fmt::Display>::fmt <() as std::default::Default>::default <I as std::iter::IntoIterator>::into_iter
+<&T as std::fmt::Display>::fmt <() as std::default::Default>::default
 <i32 as std::default::Default>::default <i64 as std::default::Default>::default <u8 as std::default::Default>::default
 <std::fmt::Formatter<'_> as std::fmt::Write>::write_char std::fmt::Formatter::<'a>::write_str std::fmt::Formatter::<'a>::write_fmt std::fmt::Formatter::<'a>::pad
 ?std::fmt::Write::write_char ?std::fmt::Write::write_str ?std::fmt::Write::write_fmt ?std::fmt::Debug::fmt ?std::fmt::Display::fmt
@@ -967,6 +967,25 @@ serde::de::impls::<impl serde::Deserialize<'de> for (T0, T1)>::deserialize serde
                  "chunk size must not be 0")
         return None
     M["core::slice::<impl [T]>::chunks_exact"] = chunks_exact
+
+    M["<I as std::iter::IntoIterator>::into_iter"] = lambda F, bi, st, t, args: args[0][0]      # an iterator is its own IntoIterator
+
+    def windows(F, bi, st, t, args):
+        n = ival(F, st, args[1])
+        F.oblige(bi, "panic", "windows(%s,%s)" % (F.d_op(t["args"][0]), F.d_op(t["args"][1])), t["ln"], n is not None and n[1] >= 1, "window size must not be 0")
+        v = lenval(F, st, args[0])
+        if n is None or n[1] != n[2]:
+            return None
+        # the iterator is abstracted by the sequence of its items: slices of exactly n elements
+        return ("l", 0, v[2] if v else MAXLEN, ("r", ("val", ("l", n[1], n[1], v[3] if v else UNK))))
+    M["core::slice::<impl [T]>::windows"] = windows
+
+    def windows_next(F, bi, st, t, args):
+        v = lenval(F, st, args[0])
+        if v is None:
+            return None
+        return opt(v[3], True, v[2] > 0)
+    M["<std::slice::Windows<'a, T> as std::iter::Iterator>::next"] = windows_next
 
     def vec_with_capacity(F, bi, st, t, args):
         a = ival(F, st, args[0])
